@@ -101,6 +101,7 @@ class Exec:
         self.trusted_used = set()
         self.quiet = 0
         self.tag = ("[" + ",".join(f"{k}={v}" for k, v in self.split.items()) + "]") if self.split else ""
+        self.z3_timeout_ms, self.cvc5_timeout_s, self.retries = Z3_TIMEOUT_MS, CVC5_TIMEOUT_S, 2
         self.extra_unfold = {}
         self.ghost_names = set()
         for lem in contract.get("lemmas", []):
@@ -134,10 +135,19 @@ class Exec:
             self.results.append(Result(full, "discharged", "simplify", 0.0, line))
             return
         asserts = self._query(st, [z3.Not(goal)])
-        s = make_solver(Z3_TIMEOUT_MS)
-        s.add(*asserts)
         t = time.time()
-        r = s.check()
+        r, s = None, None
+        # E-matching is order-sensitive: an obligation counts as discharged when ANY attempt answers unsat (sound), so a
+        # verdict does not flip with the scheduling of fresh names; a second and third seed are tried before cvc5.
+        for attempt in range(1 + self.retries):
+            s = make_solver(self.z3_timeout_ms)
+            if attempt:
+                s.set("random_seed", attempt)
+                s.set("smt.random_seed", attempt)
+            s.add(*(asserts if attempt % 2 == 0 else list(reversed(asserts))))
+            r = s.check()
+            if r != z3.unknown:
+                break
         dt = time.time() - t
         if r == z3.unsat:
             self.results.append(Result(full, "discharged", "z3", dt, line))
@@ -155,7 +165,7 @@ class Exec:
         if os.environ.get("PYVC_DUMP"):
             open(os.path.join(os.environ["PYVC_DUMP"], full.replace("/", "_").replace(":", "_") + ".smt2"), "w").write(s.to_smt2())
         t = time.time()
-        r2, out = run_cvc5(s.to_smt2())
+        r2, out = run_cvc5(s.to_smt2(), self.cvc5_timeout_s)
         dt2 = time.time() - t
         if r2 == "unsat":
             self.results.append(Result(full, "discharged", "cvc5", dt + dt2, line))
@@ -499,6 +509,8 @@ class Exec:
             c_ = toint(self.ev(sl, st))
             self.index_ok(st, c_, base.n, line)
             return base.at(c_)
+        if z3.is_expr(base) and z3.is_array(base):        # raw array value (lemma language)
+            return base[toint(self.ev(sl, st))]
         if not isinstance(base, Seq):
             raise Unsupported(f"subscript of {base!r}")
         if isinstance(sl, ast.Slice):
@@ -657,6 +669,9 @@ class Exec:
                     and tgt.id not in self.ghost_names:      # a ghost binding is a value snapshot, not an alias
                 st.aliased.add(tgt.id)
                 st.aliased.add(s.value.id)
+            hint = self.c.get("types", {}).get(tgt.id)
+            if hint == "list_char" and isinstance(v, Seq) and v.kind == "list" and lit(v.n) == 0:
+                v = Seq("list", "char", v.arr, v.n, v.start, v.delta)      # an empty list that will hold single characters
             st.env[tgt.id] = v
             return
         if isinstance(tgt, (ast.Tuple, ast.List)):
@@ -980,7 +995,8 @@ class Exec:
         line = s.lineno
         is_for = cond is None
         g_end = self.ghost_ast(f"loop{n}_end")
-        names = self.assigned_names(s, g_end) | {"_i", f"_i{n}"}
+        g_begin = self.ghost_ast(f"loop{n}_begin")
+        names = self.assigned_names(s, list(g_end) + list(g_begin)) | {"_i", f"_i{n}"}
         for g in self.ghost(f"before_loop{n}", st):
             st = g
         st.env["_i"] = st.env[f"_i{n}"] = iv(0)
@@ -1004,22 +1020,21 @@ class Exec:
             c = tobool(self.ev(cond, h))
             outs += self.drain()
             h.assume(c)
-        var0 = None
-        if spec.get("variant") is not None:
-            self.quiet += 1
-            var0 = self.spec_eval(spec["variant"], h)
-            self.quiet -= 1
-            var0 = var0.items if isinstance(var0, Tup) else [var0]
-            var0 = [toint(x) for x in var0]
-            self.prove(h, f"loop{n}:variant-bounded", z3.And(*[x >= 0 for x in var0]), line)
-        elif not is_for:
+        if spec.get("variant") is None and not is_for:
             raise Unsupported(f"while loop {n} has no variant")
         after = []
+        body_outs = []
         if self.feasible(h):
-            body_outs = self.exec_block(s.body, h)
-        else:
-            body_outs = []
-        for o in body_outs:
+            for hb in self.exec_ghost_ast(g_begin, h, f"loop{n}_begin"):
+                var0 = None
+                if spec.get("variant") is not None:
+                    self.quiet += 1
+                    var0 = self.spec_eval(spec["variant"], hb)
+                    self.quiet -= 1
+                    var0 = [toint(x) for x in (var0.items if isinstance(var0, Tup) else [var0])]
+                    self.prove(hb, f"loop{n}:variant-bounded", z3.And(*[x >= 0 for x in var0]), line)
+                body_outs += [(o, var0) for o in self.exec_block(s.body, hb)]
+        for o, var0 in body_outs:
             if o.kind in ("normal", "continue"):
                 t = o.st
                 for t2 in self.exec_ghost_ast(g_end, t, f"loop{n}_end"):
@@ -1157,15 +1172,16 @@ class Exec:
             self.results.append(Result(f"{self.qualname}{self.tag}:raise{k}@{o.line}:{o.exc}:allowed", "discharged", "contract", 0.0, o.line))
 
 
-def run_cvc5(smt2):
+def run_cvc5(smt2, limit_s=None):
     exe = "/usr/bin/cvc5"
-    if not os.path.exists(exe) or CVC5_TIMEOUT_S <= 0:
+    limit_s = CVC5_TIMEOUT_S if limit_s is None else limit_s
+    if not os.path.exists(exe) or limit_s <= 0:
         return "absent", ""
     with tempfile.NamedTemporaryFile("w", suffix=".smt2", delete=False, dir=os.environ.get("PYVC_TMP", None)) as f:
         f.write("(set-logic ALL)\n" + smt2)
         path = f.name
     try:
-        p = subprocess.run([exe, "--tlimit", str(CVC5_TIMEOUT_S * 1000), path], capture_output=True, text=True, timeout=CVC5_TIMEOUT_S + 5)
+        p = subprocess.run([exe, "--tlimit", str(limit_s * 1000), path], capture_output=True, text=True, timeout=limit_s + 5)
         out = (p.stdout + p.stderr).strip()
         first = out.split("\n")[0] if out else ""
         return (first if first in ("sat", "unsat", "unknown") else "error"), out
